@@ -253,6 +253,10 @@ def build_designspace(fam, module):
             s.font = f
             s.layerName = "sparse"
         s.location = dict(sparse["loc"])
+        if fam.get("partial_locations"):
+            for a in ds.axes:
+                if a.name in s.location and s.location[a.name] == a.map_forward(a.default):
+                    del s.location[a.name]
         s.name = "sparse"
         ds.addSource(s)
     for r in fam.get("rules", []):
